@@ -14,12 +14,13 @@ type Info struct {
 	N string
 	S int64
 	M fs.FileMode
+	T int64 // modification time (ns on the engine's virtual clock)
 }
 
 func (i Info) Name() string               { return i.N }
 func (i Info) Size() int64                { return i.S }
 func (i Info) Mode() fs.FileMode          { return i.M }
-func (i Info) ModTime() time.Time         { return time.Time{} }
+func (i Info) ModTime() time.Time         { return time.Unix(0, i.T) }
 func (i Info) IsDir() bool                { return i.M&fs.ModeDir != 0 }
 func (i Info) Sys() any                   { return nil }
 func (i Info) Type() fs.FileMode          { return i.M & fs.ModeType }
